@@ -7,9 +7,10 @@ open Ioflo.ResolvePath
 
 /-! ## relative paths -/
 
-/-- the resolved form of a path that starts `framer.me`: only the substitution block works on it -/
+/-- the resolved form of a path that starts `framer.me`: only the guard of fix D68 and the substitution block work on it -/
 theorem resolveParts_framer_me (c : Ctx) (inode : Option (List String)) (rest : List String) :
-    resolveParts c inode ("framer" :: "me" :: rest) = substFramer c ("me" :: rest) := by
+    resolveParts c inode ("framer" :: "me" :: rest)
+      = if incompletePath ("framer" :: "me" :: rest) then .error .incomplete else substFramer c ("me" :: rest) := by
   unfold resolveParts prepend
   have h1 : addInode (framerParts c) (overParts c) inode ("framer" :: "me" :: rest) = "framer" :: "me" :: rest := by
     unfold addInode
@@ -23,7 +24,7 @@ def substTail (c : Ctx) : List String → Except Ioflo.ResolvePath.Err (List Str
   | p2 :: rest3 =>
     if p2 = "frame" then
       match rest3 with
-      | [] => .error .indexError
+      | [] => .error .incomplete
       | p3 :: rest4 => do
         let p3 ← substFrameName c p3
         match rest4 with
@@ -234,14 +235,18 @@ theorem keys_erase {α : Type} (l : List (String × α)) (k : String) : keys (er
 
 /-! ## the heap -/
 
-theorem find_map_mod (l : List Fr) (u v : Nat) (f : Fr → Fr) (hf : ∀ o, (f o).uid = o.uid) :
+theorem find_map_mod' (l : List Fr) (u v : Nat) (f : Fr → Fr) (hf : ∀ o, o.uid = u → (f o).uid = u) :
     (l.map (fun o => if o.uid == u then f o else o)).find? (fun o => o.uid == v)
       = if v = u then (l.find? (fun o => o.uid == v)).map f else l.find? (fun o => o.uid == v) := by
   induction l with
   | nil => simp
   | cons a t ih =>
     rw [List.map_cons]
-    have huid : (if (a.uid == u) = true then f a else a).uid = a.uid := by split <;> simp [hf]
+    have huid : (if (a.uid == u) = true then f a else a).uid = a.uid := by
+      split
+      · rename_i h; have h' : a.uid = u := by simpa using h
+        rw [hf a h', h']
+      · rfl
     by_cases hav : a.uid = v
     · rw [List.find?_cons_of_pos (by rw [huid]; simp [hav]), List.find?_cons_of_pos (by simp [hav])]
       by_cases hvu : v = u
@@ -250,6 +255,15 @@ theorem find_map_mod (l : List Fr) (u v : Nat) (f : Fr → Fr) (hf : ∀ o, (f o
         simp [hvu, this]
     · rw [List.find?_cons_of_neg (by rw [huid]; simp [hav]), List.find?_cons_of_neg (by simp [hav])]
       exact ih
+
+theorem get?_mod' (s : St) (u v : Nat) (f : Fr → Fr) (hf : ∀ o, o.uid = u → (f o).uid = u) :
+    (s.mod u f).get? v = if v = u then (s.get? v).map f else s.get? v :=
+  find_map_mod' s.objs u v f hf
+
+theorem find_map_mod (l : List Fr) (u v : Nat) (f : Fr → Fr) (hf : ∀ o, (f o).uid = o.uid) :
+    (l.map (fun o => if o.uid == u then f o else o)).find? (fun o => o.uid == v)
+      = if v = u then (l.find? (fun o => o.uid == v)).map f else l.find? (fun o => o.uid == v) :=
+  find_map_mod' l u v f (fun o h => (hf o).trans h)
 
 theorem get?_mod (s : St) (u v : Nat) (f : Fr → Fr) (hf : ∀ o, (f o).uid = o.uid) :
     (s.mod u f).get? v = if v = u then (s.get? v).map f else s.get? v :=
@@ -262,5 +276,71 @@ theorem get?_mod_self (s : St) (u : Nat) (f : Fr → Fr) (hf : ∀ o, (f o).uid 
 theorem get?_mod_other (s : St) (u v : Nat) (f : Fr → Fr) (hf : ∀ o, (f o).uid = o.uid) (h : v ≠ u) :
     (s.mod u f).get? v = s.get? v := by
   rw [get?_mod s u v f hf]; simp [h]
+
+
+theorem get?_append_fresh (s : St) (c : Fr) (h : s.get? c.uid = none) (v : Nat) :
+    ({ s with objs := s.objs ++ [c] } : St).get? v = if v = c.uid then some c else s.get? v := by
+  unfold St.get? at *
+  simp only [List.find?_append]
+  by_cases hv : v = c.uid
+  · subst hv
+    simp [h]
+  · have : ¬ c.uid = v := fun e => hv e.symm
+    cases hf : s.objs.find? (fun o => o.uid == v) <;> simp [hv, this]
+
+/-- what `Framer(name=…)` does to the heap -/
+theorem get?_newFramer (s : St) (name tag : String) (sched : Sched) (hfresh : s.get? s.nextUid = none) (v : Nat) :
+    (newFramer s name tag sched).1.get? v
+      = if v = s.nextUid then some (newFramer s name tag sched).2 else s.get? v := by
+  simp only [newFramer]
+  exact get?_append_fresh s _ hfresh v
+
+/-- what a successful `Framer.clone` does to the house -/
+theorem cloneFramer_spec (s s1 : St) (orig c1 : Fr) (name tag : String) (hfresh : s.get? s.nextUid = none)
+    (hc : cloneFramer s orig name tag = .ok (s1, c1)) :
+    c1.uid = s.nextUid ∧ c1.name = name ∧ c1.tag = (if tag = "" then name else tag) ∧
+    c1.frames = orig.frames.map Frame.clone ∧ c1.original = true ∧ c1.ctl = {} ∧ c1.main = none ∧
+    (∀ v, s1.get? v = if v = s.nextUid then some c1 else s.get? v) ∧
+    s1.names = assign s.names name s.nextUid ∧ s1.presolvables = s.presolvables ∧ s1.nextUid = s.nextUid + 1 ∧
+    lookup s.names name = none := by
+  unfold cloneFramer at hc
+  split at hc
+  · cases hc
+  · split at hc
+    · cases hc
+    · rename_i hn
+      split at hc
+      · cases hc
+      · have hl : lookup s.names name = none := by
+          cases hq : lookup s.names name with
+          | none => rfl
+          | some x => simp [hq] at hn
+        have hget : ∀ v, (newFramer s name tag .aux).1.get? v
+            = if v = s.nextUid then some (newFramer s name tag .aux).2 else s.get? v :=
+          get?_newFramer s name tag .aux hfresh
+        generalize hnf : newFramer s name tag .aux = r at hc hget
+        obtain ⟨s2, c2⟩ := r
+        have hc2 : c2.uid = s.nextUid ∧ c2.name = name ∧ c2.tag = (if tag = "" then name else tag) ∧
+            c2.original = true ∧ c2.ctl = {} ∧ c2.main = none ∧
+            s2.names = assign s.names name s.nextUid ∧ s2.presolvables = s.presolvables ∧ s2.nextUid = s.nextUid + 1 := by
+          simp only [newFramer] at hnf
+          injection hnf with e1 e2
+          subst e1 e2
+          exact ⟨rfl, rfl, rfl, rfl, rfl, rfl, rfl, rfl, rfl⟩
+        simp only [] at hc
+        injection hc with hc
+        injection hc with hc1 hc2'
+        subst hc2'
+        subst hc1
+        obtain ⟨u1, u2, u3, u4, u5, u6, u7, u8, u9⟩ := hc2
+        refine ⟨u1, u2, u3, rfl, u4, u5, u6, ?_, u7, u8, u9, hl⟩
+        intro v
+        have := get?_mod' s2 c2.uid v
+          (fun _ => { c2 with first := orig.first, moots := orig.moots, inode := orig.inode,
+                              frames := orig.frames.map Frame.clone }) (fun _ _ => rfl)
+        rw [this, u1]
+        by_cases hv : v = s.nextUid
+        · simp [hv, hget]
+        · simp [hv, hget]
 
 end Ioflo.Clones
